@@ -108,6 +108,12 @@ def check(run):
         path = [rand_fr(rng) for _ in range(n)]
         idx = bytes(rng.choice([0, 1, 0, 1, 2, 255]) if rng.random() < 0.1 else rng.getrandbits(1) for _ in range(m))
         s, x, e = rand_fr(rng), rand_fr(rng), rand_fr(rng)
+        if k % 4 == 1:
+            # values special in the decimal representation (seed C10g: a chunked decimal printer that drops all-zero 19-digit groups)
+            s, x, e = gen.decimal_special(rng), gen.decimal_special(rng), gen.decimal_special(rng)
+            path = [gen.decimal_special(rng) for _ in range(n)]
+            lim = max(gen.decimal_special(rng), 1)
+            mid = rng.choice([0, 10**19 % lim, gen.decimal_special(rng) % lim, lim - 1])
         seqs.append([f"witness {hex(s)} {hex(lim)} {hex(mid)} {','.join(hex(p) for p in path) or '-'} {rlngen.hx(idx)} {hex(x)} {hex(e)}"])
         enc = rlngen.witness_bytes(s, lim, mid, path, idx, x, e)
         seqs.append([f"de_witness {enc.hex()}"])
